@@ -62,6 +62,11 @@ pub fn gen_tree(r: &mut Rng, with_md_md: bool) -> Vec<(String, String)> {
     if r.chance(1, 2) && !files.iter().any(|(p, _)| p.starts_with("archive.md/")) {
         files.push(("archive.md/old.md".to_string(), "# Old   note\n\n*  kept  here *\n".to_string()));
     }
+    // notes that are in iwe's normal form except for their line terminators: still rewritten to the exported text
+    if r.chance(1, 2) {
+        files.push(("crlf note.md".to_string(), "# Crlf\r\n\r\nline one\r\n\r\n- item\r\n".to_string()));
+        files.push(("d/nofinal.md".to_string(), "# No final newline\n\ntext".to_string()));
+    }
     files.push(("notes.txt".to_string(), "not a note\n".to_string()));
     files.push(("d/readme.markdown".to_string(), "* keep   me  *\n".to_string()));
     files.push(("img/pic.png".to_string(), "PNG".to_string()));
